@@ -150,7 +150,7 @@ def main():
     with open(path, "w") as fh:
         json.dump(man, fh, indent=1)
     try:
-        sys.path.insert(0, "/opt/veriftools/pyvenv/lib/python3.11/site-packages")
+        sys.path.append("/opt/veriftools/pyvenv/lib/python3.11/site-packages")
         import jsonschema
         jsonschema.validate(man, json.load(open("/root/.vp/MANIFEST.schema.json")))
         print("MANIFEST valid;", len(checks), "checks;", len(na), "not applicable")
